@@ -43,26 +43,32 @@ Cur(e) == [d \in Deps(e) |-> defs.ver[d]]
 Fresh(cell) == cell.seen = Cur(cell.e)
 NoStale == \A cell \in memo : Fresh(cell)
 \* cells an evaluation of e at t creates (the stock recursion reaches back to the start)
+IvCell == IF defs.ive = 1 THEN {<<"c", 0>>} ELSE {}       \* the initial value is the element c: evaluated at the start time
 Reach(e, t) == CASE e = "c" -> {<<"c", t>>}
                  [] e = "f" -> {<<"f", t>>, <<"c", t>>}      \* a flow evaluates its equation at the time it is asked for
-                 [] e = "s" -> {<<"s", k>> : k \in 0..t} \cup {<<"f", k>> : k \in 0..(t - 1)} \cup {<<"c", k>> : k \in 0..(t - 1)}
+                 [] e = "s" -> {<<"s", k>> : k \in 0..t} \cup {<<"f", k>> : k \in 0..(t - 1)} \cup {<<"c", k>> : k \in 0..(t - 1)} \cup IvCell
                  [] e = "w" -> {<<"w", t>>}
-                 [] e = "y" -> {<<"y", t>>, <<"w", t>>} \cup {<<"s", k>> : k \in 0..t} \cup {<<"f", k>> : k \in 0..(t - 1)} \cup {<<"c", k>> : k \in 0..(t - 1)}
+                 [] e = "y" -> {<<"y", t>>, <<"w", t>>} \cup {<<"s", k>> : k \in 0..t} \cup {<<"f", k>> : k \in 0..(t - 1)} \cup {<<"c", k>> : k \in 0..(t - 1)} \cup IvCell
 Has(e, t) == \E cell \in memo : cell.e = e /\ cell.t = t
 \* an evaluation only computes (and records with the current versions) what is not cached yet
 Filled(e, t) == memo \cup {[e |-> p[1], t |-> p[2], seen |-> Cur(p[1])] : p \in {q \in Reach(e, t) : ~Has(q[1], q[2])}}
 
-Log1(rec) == hist' = IF L = 0 THEN hist ELSE Append(hist, rec @@ [defs |-> [c |-> defs'.c, iv |-> defs'.iv, fv |-> defs'.fv, yv |-> defs'.yv, w |-> defs'.w, sv |-> defs'.sv]])
+Log1(rec) == hist' = IF L = 0 THEN hist ELSE Append(hist, rec @@ [defs |-> [c |-> defs'.c, iv |-> defs'.iv, ive |-> defs'.ive, fv |-> defs'.fv, yv |-> defs'.yv, w |-> defs'.w, sv |-> defs'.sv]])
 Bump(e) == [defs.ver EXCEPT ![e] = @ + 1]
 Cleared == IF "NoReset" \in Dev THEN memo ELSE {}
 
 SetConst(v) == /\ "SetConst" \in Ops /\ v # defs.c
                /\ defs' = [defs EXCEPT !.c = v, !.ver = Bump("c")] /\ memo' = {}
                /\ Log1([op |-> "SetConst", v |-> v])
-SetInit(v) == /\ "SetInit" \in Ops /\ v # defs.iv
-              /\ defs' = [defs EXCEPT !.iv = v, !.ver = Bump("s")]
+\* the initial value of the stock is a number (iv) or an element of the model (ive = 1: the constant c itself)
+SetInit(v) == /\ "SetInit" \in Ops /\ (v # defs.iv \/ defs.ive = 1)
+              /\ defs' = [defs EXCEPT !.iv = v, !.ive = 0, !.ver = Bump("s")]
               /\ memo' = IF "D08a_initial_value_own_memo_only" \in Dev THEN {cell \in memo : cell.e # "s"} ELSE {}
               /\ Log1([op |-> "SetInit", v |-> v])
+SetInitElem == /\ "SetInitElem" \in Ops /\ defs.ive = 0
+               /\ defs' = [defs EXCEPT !.ive = 1, !.ver = Bump("s")]
+               /\ memo' = IF "D08a_initial_value_own_memo_only" \in Dev THEN {cell \in memo : cell.e # "s"} ELSE {}
+               /\ Log1([op |-> "SetInitElem"])
 SetFlow(v) == /\ "SetFlow" \in Ops /\ v # defs.fv
               /\ defs' = [defs EXCEPT !.fv = v, !.ver = Bump("f")] /\ memo' = {}
               /\ Log1([op |-> "SetFlow", v |-> v])
@@ -95,9 +101,10 @@ RunTwice == /\ "RunTwice" \in Ops
             /\ Log1([op |-> "RunTwice"])
 
 Idle2 == slot = 0 /\ pc = <<>> /\ mine = <<>> /\ got = <<>> /\ ndraw = 0 /\ sched = <<>>
-Init1 == /\ defs = [c |-> 1, iv |-> 0, fv |-> 1, yv |-> 1, w |-> 0, sv |-> 1, ver |-> [e \in Elems |-> 0]] /\ memo = {} /\ hist = <<>> /\ Idle2
+Init1 == /\ defs = [c |-> 1, iv |-> 0, ive |-> 0, fv |-> 1, yv |-> 1, w |-> 0, sv |-> 1, ver |-> [e \in Elems |-> 0]] /\ memo = {} /\ hist = <<>> /\ Idle2
 Step1 == \/ \E v \in CVals : SetConst(v)
          \/ \E v \in IVals : SetInit(v)
+         \/ SetInitElem
          \/ \E v \in {1, 2} : SetFlow(v) \/ SetConv(v) \/ SetStockEq(v)
          \/ \E v \in CVals : SetW(v)
          \/ \E e \in Elems, t \in Times, r \in {"api", "elem"} : Eval(e, t, r)
